@@ -91,6 +91,8 @@ class C17(Campaign):
         if rnd.random() < 0.4:
             prog["model"]["field"] = rnd.choice(["status", "st_x"])
         prog["listener_eq"] = rnd.random() < 0.3
+        # several DISTINCT listeners that all compare equal (kept rare: known finding)
+        prog["listener_eq_all"] = len(prog["listeners"]) >= 2 and rnd.random() < 0.12
         holds = prog["model"]["kind"] != "none" and rnd.random() < 0.3
         new = sc["ops"][0]
         new["custom_attr"] = True
@@ -204,4 +206,7 @@ class C17(Campaign):
         d = v.get("detail", {})
         sig["clone_before_activation"] = d.get("clone_before_activation")
         sig["on"] = d.get("on")
+        prog = sc["programs"][0]
+        new = sc["ops"][0]
+        sig["several_equal_listeners"] = bool(prog.get("listener_eq_all")) and len(new.get("listeners", [])) >= 2
         return sig
